@@ -22,7 +22,7 @@ FUNCTIONS = ["TaskPool.apply", "TaskPool._apply_spawner", "SimpleTaskPool.start"
 
 A, B, KV = ("A",), ("B",), ("KV",)      # identity-checked sentinels
 SHAPES = (((), None), ((A,), None), ((A, B), None), ((), {"k": KV}), ((A,), {"k": KV, "j": B}))
-ALPHA = ("rel", "lock", "unlock", "gather", "cancel", "cgroup", "flush", "nop")
+ALPHA = ("rel", "lock", "unlock", "gather", "cancel", "cgroup", "flush", "again", "nop")
 NOP = len(ALPHA) - 1
 
 
@@ -153,7 +153,9 @@ def families(tier):
     if not thorough:
         # quick: one request shape (args+kwargs, first call raises), second request settled (t >= 4)
         pre = base + ["x5 == %d" % NOP, "a5 == 0", "sh == 4", "0 <= bad <= 1", "n1 == 3", "n2 == 1", "size >= 1", "t >= 4"]
-        parts = parts_product(simple=(0, 1), bad=(0, 1), x3=range(NOP), x4=(0, 1, 3, 5, NOP))
+        parts = parts_product(simple=(0, 1), bad=(0, 1), x3=range(NOP - 1), x4=(0, 1, 3, 5, NOP))
+        # a third request (same function, so the generated name of a cancelled group may come round again) after a cancellation
+        parts += parts_product(simple=(0, 1), bad=(0, 1), x3=(4, 5), x4=(NOP - 1,))
     else:
         pre = base + ["x5 == %d" % NOP, "a5 == 0", "sh == 4", "-1 <= bad <= 1", "2 <= n1 <= 3", "n2 == 1"]
         parts = parts_product(simple=(0, 1), n1=(2, 3), bad=(-1, 0, 1), x3=range(NOP), x4=range(NOP + 1))
